@@ -10,6 +10,7 @@ Template syntax.  Everything is ordinary Verus text except directive blocks made
     //|       ensures ..
     //@   loop <n> [iter <name>]                      R1: payload inserted before the body of the n-th loop (1-based,
     //|       invariant ..                                textual order); `iter` names the ghost iterator of a `for`
+    //@   atstart                                     R2: payload (ghost block) inserted at the very start of the body (no anchor needed)
     //@   loopend <n>                                 R2: payload (ghost block) inserted at the end of the n-th loop's body
     //@   before /<regex>/                            R2: payload inserted before the (single) line matching regex
     //@   after /<regex>/                             R2: ... after that line
@@ -278,6 +279,10 @@ def expand_fn(src, item_path, subs, log, tline):
             at = ls if body_msk[ls:close].strip() == '' else close
             edits.append((body_off + at, 0, ptxt + '\n', ln))
             log.append({'rule': 'R2', 'item': name, 'what': 'ghost block at end of loop %d body (%d lines)' % (n, len(payload))})
+        elif d == 'atstart':
+            # ghost block right after the opening brace of the body: needs no anchor inside the body
+            edits.append((it.hdr_end + 1, 0, '\n' + ptxt + '\n', ln))
+            log.append({'rule': 'R2', 'item': name, 'what': 'ghost block at function start (%d lines)' % len(payload)})
         elif d.startswith('before ') or d.startswith('after '):
             w, arg = d.split(' ', 1)
             rx = _regex_of(arg)
